@@ -317,10 +317,16 @@ class FetchAtt:
     ####################################################################
     #
     def _single_section(
-        self, msg: Message | EmailMessage, section: int | str
+        self,
+        msg: Message | EmailMessage,
+        section: int | str,
+        nested: bool = False,
     ) -> bytes:
         """
         Flatten message text from single top level section.
+
+        `nested` is True when `msg` is a sub-part that we descended to
+        because the section had a part number in front (`BODY[2.HEADER]`).
         """
         match section:
             case int():
@@ -384,8 +390,13 @@ class FetchAtt:
                         # headers we need to use the first sub-part of this
                         # message.
                         #
+                        # (Only for a part we descended to: `BODY[HEADER]`
+                        # of a message that *is* a message/rfc822 is that
+                        # message's own header.)
+                        #
                         if (
-                            msg.is_multipart()
+                            nested
+                            and msg.is_multipart()
                             and msg.get_content_type() == "message/rfc822"
                         ):
                             return msg_headers_as_bytes(
@@ -409,13 +420,16 @@ class FetchAtt:
     ####################################################################
     #
     def _body(
-        self, msg: Message | EmailMessage, section: None | list[int | str]
+        self,
+        msg: Message | EmailMessage,
+        section: None | list[int | str],
+        nested: bool = False,
     ) -> bytes:
         if not section:
             return msg_as_bytes(msg)
 
         if len(section) == 1:
-            return self._single_section(msg, section[0])
+            return self._single_section(msg, section[0], nested=nested)
 
         if isinstance(section[0], int):
             # We have an integer sub-section. This means that we
@@ -433,7 +447,7 @@ class FetchAtt:
             try:
                 bp = msg.get_payload(section[0] - 1)
                 assert isinstance(bp, Message)
-                return self._body(bp, section[1:])
+                return self._body(bp, section[1:], nested=True)
             except (TypeError, IndexError) as err:
                 raise BadSection(
                     f"Message does not contain subsection {section[0]} "
